@@ -236,6 +236,8 @@ class Ops:
             if p is None:
                 return smt.TRUE
             return self.ctx.app(p, v.term)
+        if k == "str":
+            return smt.Ne(v.term, self.term(""))  # a string is falsy iff it is the empty string
         if k in ("rec", "enum"):
             return smt.TRUE  # NamedTuples with >= 1 field, dataclasses, enum members
         if k == "tuple":
